@@ -739,3 +739,47 @@ benign('C18', 'export-column-via-local', EXP, _EXPCOL, """            samples = 
 """)
 mutant('C18', 'export-raw-values', EXP, _EXPCOL, """            data[f'{variable} ({unit})'] = [s.value for s in rotating_object.time_variables[variable]]
 """, 'C18.export')
+
+# ------------------------------------------------------------------------------------------ C20 duplicate names, semantic (round 2)
+_DUP = """        counts = Counter([element.name for element in elements])
+        for name, count in counts.items():
+            if count > 1:
+                raise NameError(
+                    f"Found {count} elements with the same name {name!r}, "
+                    f"each element must have a unique name."
+                )
+"""
+benign('C20', 'duplicates-by-set-size', PT, _DUP, """        names = [element.name for element in elements]
+        if len(set(names)) != len(names):
+            raise NameError("each element must have a unique name.")
+""")
+benign('C20', 'duplicates-by-seen-set', PT, _DUP, """        seen = set()
+        for element in elements:
+            if element.name in seen:
+                raise NameError("each element must have a unique name.")
+            seen.add(element.name)
+""")
+mutant('C20', 'duplicates-adjacent-only', PT, _DUP, """        names = [element.name for element in elements]
+        for first, second in zip(names, names[1:]):
+            if first == second:
+                raise NameError("each element must have a unique name.")
+""", 'C20.rejects')
+mutant('C20', 'duplicates-more-than-two', PT, "            if count > 1:\n                raise NameError(", "            if count > 2:\n                raise NameError(", 'C20.rejects')
+benign('C20', 'walk-with-cursor', PT, """        elements = [motor]
+        while elements[-1].drives is not None:
+            elements.append(elements[-1].drives)
+""", """        elements = []
+        cursor = motor
+        while cursor is not None:
+            elements.append(cursor)
+            cursor = cursor.drives
+""")
+mutant('C20', 'walk-with-cursor-drops-last', PT, """        elements = [motor]
+        while elements[-1].drives is not None:
+            elements.append(elements[-1].drives)
+""", """        elements = []
+        cursor = motor
+        while cursor.drives is not None:
+            elements.append(cursor)
+            cursor = cursor.drives
+""", 'C20.walk')
